@@ -28,7 +28,7 @@ CHECKS = {
    design_ref="DESIGN.md section 4 C03",
    note="bounded: root mappings up to 10 (quick) / 13 (thorough) events exhaustively; random merge trees of depth <= 3; "
         "merge sources that repeat a key internally are treated as unconstrained; " + TRUST,
-   technique="TLA+ model (MapAccess.tla, MapAccessMachine.tla) checked by TLC + TLC trace validation of recorded calls against MapAccess!Conf"),
+   technique="TLA+ model (MapAccess.tla, MapAccessMachine.tla) checked by TLC + TLC trace validation of recorded calls against MapAccess!Conf + action-level trace validation of the instrumented MA::next_key_seed loop (TR_MapAccess)"),
  "C04": dict(
    category="model_checking",
    text="Same specification as C03 with the duplicate-key policies in focus: key identity is the structural fingerprint "
@@ -40,7 +40,7 @@ CHECKS = {
    note="bounded: root mappings up to 9 (quick) / 12 (thorough) events with scalar and sequence keys exhaustively; mapping keys "
         "and 200-1000 event values by random generation; known finding C04-kemn-key is suppressed only for documents containing "
         "such a key; " + TRUST,
-   technique="TLA+ model (MapAccess.tla) checked by TLC + TLC trace validation of recorded calls against MapAccess!Conf / Faults"),
+   technique="TLA+ model (MapAccess.tla, MapAccessMachine.tla) checked by TLC + TLC trace validation of recorded calls against MapAccess!Conf / Faults + action-level trace validation of the instrumented MA::next_key_seed loop (TR_MapAccess)"),
  "C07": dict(
    category="model_checking",
    text="Budget.tla defines the eight counted quantities as an independent count over the observed stream (raw parser events "
